@@ -486,7 +486,37 @@ def enum_mp(tier):
         for w in ((None, 2) if tier == "quick" else (None, 2, 3, 5)):  # None = the default: one worker per CPU
             cases.append({"engine": "multilevel", "model": hem, "paths": 48, "levels": 1 if tier == "quick" else 2,
                           "workers": w, "seed": seed})
+    busy = {"family": "hem", "params": {"sigma": 0.1, "p": 0.5, "eta1": 12.0, "eta2": 12.0, "intensity": 90.0},
+            "exp": {"spot": 100.0, "r": 0.05, "d": 0.02}}
+    # fixed dates: whatever the chunks share of the pre-drawn rows, paths of one chunk are different paths
+    for w in ((2, 3) if tier == "quick" else (2, 3, 5)):
+        cases.append({"engine": "multilevel", "dates": "fixed", "model": busy, "paths": 48, "levels": 1, "workers": w,
+                      "seed": 20261002})
+    # every sampler (TABLE draws from Python's generator): state variates of different paths differ
+    for method in ("TABLE", "ALIAS", "INVERSION") if tier == "quick" else \
+            ("TABLE", "ALIAS", "INVERSION", "BINARYSEARCHTREE", "HUFFMANNTREE", "BINARYSEARCHTREEADAPTED1D"):
+        for w, seed in ((2, None), (3, 20261002)):
+            cases.append({"engine": "multilevel", "model": busy, "paths": 48, "levels": 1, "workers": w, "seed": seed,
+                          "method": method, "record_jumps": True})
     return cases
+
+
+def _recording_spot():
+    """a Spot underlying that records, in the parent process, the pure-jump component of every path it is valued on"""
+    from rpylib.product.underlying import Spot
+
+    class _RecSpot(Spot):
+        log = []
+
+        def value(self, times, path, jump_path, payoff_underlying=None):
+            _RecSpot.log.append(np.array(jump_path, dtype=float).copy())
+            return Spot.value(self, times, path, jump_path, payoff_underlying)
+
+        def _value_log(self, times, path, jump_path, payoff_underlying=None):
+            _RecSpot.log.append(np.array(jump_path, dtype=float).copy())
+            return Spot._value_log(self, times, path, jump_path, payoff_underlying)
+
+    return _RecSpot
 
 
 def _run_mlmc_workers(case):
@@ -502,24 +532,63 @@ def _run_mlmc_workers(case):
 
     model = build_model(case["model"])
     payoff = Forward(strike=100.0)
-    payoff.payoff_dates_type = PayoffDates.STOCHASTIC  # jump-time simulation: nothing is pre-drawn
-    product = Product(payoff_underlying=Spot(), payoff=payoff, maturity=0.5)
+    if case.get("dates", "jump-times") == "jump-times":
+        payoff.payoff_dates_type = PayoffDates.STOCHASTIC  # jump-time simulation: nothing is pre-drawn
+    rec = _recording_spot() if case.get("record_jumps") else None
+    product = Product(payoff_underlying=rec() if rec else Spot(), payoff=payoff, maturity=0.5)
     grid = CTMCUniformGrid(h=0.05, model=model, truncation_probability=0.999)
-    cp = CouplingMarkovChain(model=model, method=SamplingMethod.BINARYSEARCHTREEADAPTED1D, grid=grid)
+    cp = CouplingMarkovChain(model=model, method=SamplingMethod[case.get("method", "BINARYSEARCHTREEADAPTED1D")], grid=grid)
     config = ConfigurationMultiLevel(convergence_rates=ConvergenceRates(1.0, 2.0, 1.0), initial_level=case["levels"],
                                      maximum_level=case["levels"], initial_mc_paths=case["paths"], seed=case["seed"],
                                      nb_of_processes=case["workers"])
     stats = Engine(configuration=config, coupling_process=cp).price_with_constant_mc_paths_and_level(product)
-    return [np.array(stats.simulation_payoff_with_fine_process(l), dtype=float).ravel() for l in range(case["levels"] + 1)]
+    fine = [np.array(stats.simulation_payoff_with_fine_process(l), dtype=float).ravel() for l in range(case["levels"] + 1)]
+    if rec:
+        return fine, list(rec.log)
+    return fine
 
 
 def body_mp(case):
     if case.get("engine") == "multilevel":
         fine = _run_mlmc_workers(case)
         out = []
+        if case.get("record_jumps"):
+            fine, jumps = fine
+            # the first 20 state increments of every path with at least 20 jumps: two paths sharing them were driven by the
+            # same state variates (chance collision ~ (sum p_k^2)^20 ~ 1e-12 per pair; 8 increments gave one chance
+            # collision in every sixth run)
+            heads = []
+            for jp in jumps:
+                row = np.atleast_2d(jp)[0]
+                inc = np.diff(row)
+                inc = inc[inc != 0.0]
+                if len(inc) >= 20:
+                    heads.append(tuple(np.round(inc[:20], 12)))
+            if len(heads) < case["paths"]:
+                out.append(Violation("LABEL:few-paths-with-20-jumps"))
+            if len(set(heads)) != len(heads):
+                out.append(Violation("C08/multiprocess/multilevel/paths-share-their-state-variates",
+                                     f"{len(heads) - len(set(heads))} of {len(heads)} paths repeat the first 20 state increments "
+                                     f"of another path (sampler {case.get('method')}, nb_of_processes={case['workers']}, "
+                                     f"seed={case['seed']}); case={case}"))
         for l, arr in enumerate(fine):
             if len(arr) != case["paths"] or not np.all(np.isfinite(arr)):
                 out.append(Violation("C08/multiprocess/multilevel/index-not-written-exactly-once", f"level {l}: {arr}; case={case}"))
+            elif len(np.unique(arr)) != len(arr) and case.get("dates") == "fixed":
+                # fixed-date mode pre-draws the Brownian rows and jump counts: chunks sharing them is the listed finding
+                # (paths at the same position of different chunks get the same row, and sums of grid states collide);
+                # paths *inside one chunk* use different rows and must differ (Pool.map_async's default chunk size)
+                w = case["workers"]
+                cs, extra = divmod(len(arr), 4 * w)
+                cs += 1 if extra else 0
+                inside = [(i, j) for i in range(len(arr)) for j in range(i + 1, min(len(arr), (i // cs + 1) * cs)) if arr[i] == arr[j]]
+                if inside:
+                    out.append(Violation("C08/multiprocess/multilevel/paths-of-one-chunk-are-copies",
+                                         f"level {l}: samples {inside[:4]} of one task chunk are bit-equal ({len(np.unique(arr))} "
+                                         f"distinct of {len(arr)}, nb_of_processes={w}); case={case}"))
+                else:
+                    out.append(Violation("C08/multiprocess/pre-drawn-variates-shared-between-chunks",
+                                         f"multilevel engine, level {l}, fixed dates: {len(np.unique(arr))} distinct of {len(arr)}; case={case}"))
             elif len(np.unique(arr)) != len(arr):
                 out.append(Violation("C08/multiprocess/multilevel/workers-produce-the-same-samples",
                                      f"level {l}: {len(np.unique(arr))} distinct fine samples out of {len(arr)} "
